@@ -114,6 +114,9 @@ pub fn run_case(c: &Sexp) -> R<Sexp> {
                 _ => Ok(a("not-an-operator")),
             }
         },
+        // the debugging listings format_kb / format_ss
+        ("format-kb", 2) => Ok(ok(A(atom_of_str(&format_kb(&crate::ops_solve::kb_of(&l[1])?))))),
+        ("format-ss", 2) => Ok(ok(A(atom_of_str(&format_ss(&*ss_of(&l[1])?))))),
         ("replace", 3) => {
             let t = term_of(&l[1])?;
             let ss = ss_of(&l[2])?;
